@@ -46,7 +46,34 @@ ExportFails(e) ==
                                                   ~(RIsNum(c) /\ CloseS(c, x, Eps, RAbs(x))) } })
     : i \in 1..Len(e.hist) }
 
-Fails(e) == IF e.ev = "snapshot" THEN SnapFails(e) ELSE ExportFails(e)
+
+\* plot event: time, hist, names, elsel (1-based indices of the selected elements, powertrain order), sel, units, tunit,
+\* out = [ok, err, nrows, ncols, cells = sequence of [row, col, title, lines = sequence of [label, x, y]]]   (row, col 1-based)
+PlotFails(e) ==
+  IF ~e.out.ok THEN {"PlotRaised_" \o e.out.err}
+  ELSE LET rows == PlotRows(PlotRequested(e.hist, e.elsel, e.sel))
+           CellsAt(r, c) == { k \in 1..Len(e.out.cells) : e.out.cells[k].row = r /\ e.out.cells[k].col = c }
+           LineOk(ln, i, v) ==
+             /\ (PlotLabel(v) = "" \/ ln.label = PlotLabel(v))
+             /\ Len(ln.x) = Len(e.time) /\ Len(ln.y) = Len(e.time)
+             /\ \A j \in 1..Len(e.time) :
+                  LET tx == Conv(e.time[j], "Time", "sec", e.tunit)
+                      yy == InUnit(e.units, v, e.hist[i][v][j]) IN
+                  /\ RIsNum(ln.x[j]) /\ CloseS(ln.x[j], tx, Eps, RAbs(tx))
+                  /\ RIsNum(ln.y[j]) /\ CloseS(ln.y[j], yy, Eps, RAbs(yy)) IN
+  Failing({ <<"PlotGridShape", e.out.nrows = Len(rows) /\ e.out.ncols = Len(e.elsel)>>,
+            <<"PlotOneCellPerPosition", \A r \in 1..Len(rows), c \in 1..Len(e.elsel) : Cardinality(CellsAt(r, c)) = 1>> })
+  \cup (IF e.out.nrows # Len(rows) \/ e.out.ncols # Len(e.elsel) \/ \E r \in 1..Len(rows), c \in 1..Len(e.elsel) : Cardinality(CellsAt(r, c)) # 1 THEN {}
+        ELSE UNION { UNION {
+          LET cell == e.out.cells[CHOOSE k \in CellsAt(r, c) : TRUE]
+              i == e.elsel[c]
+              exp == { v \in rows[r] : Records(e.hist, i, v) } IN
+          Failing({ <<"PlotColumnTitle", r # 1 \/ cell.title = e.names[i]>>,
+                    <<"PlotLineCount", Len(cell.lines) = Cardinality(exp)>> })
+          \cup { "PlotLine_" \o v : v \in { v \in exp : ~\E k \in 1..Len(cell.lines) : LineOk(cell.lines[k], i, v) } }
+          : c \in 1..Len(e.elsel) } : r \in 1..Len(rows) })
+
+Fails(e) == CASE e.ev = "snapshot" -> SnapFails(e) [] e.ev = "export" -> ExportFails(e) [] e.ev = "plot" -> PlotFails(e)
 Init == tid \in 1..Len(Traces)
 Next == tid > 0 /\ Verdict(Traces[tid].id, Fails(Traces[tid])) /\ tid' = 0
 =============================================================================
